@@ -49,9 +49,10 @@ def generate(rng, tier, i):
 
 
 def execute(scn, keep_log=False, hook=None):
-    from j1939.message_id import FrameFormat  # noqa  (constants only; values asserted below)
-    assert FrameFormat.FEFF == FEFF and FrameFormat.FBFF == FBFF
     w = World(scn, keep_log=keep_log)
+    import sys
+    FrameFormat = sys.modules['j1939.message_id'].FrameFormat      # (constants only; loaded from VERIF_REPO by World)
+    assert FrameFormat.FEFF == FEFF and FrameFormat.FBFF == FBFF
     sim, bus = w.sim, w.bus
     S = w.stacks['S']
     viol = []
